@@ -143,7 +143,7 @@ fn case_history(out: &mut CaseOut, tier: &str, seed: u64, idx: u64) {
     let mut rng = Rng::new(mix(&[seed, idx], "c03-h"));
     let d = director();
     d.reset(rng.next_u64());
-    let family = [KeyFamily::OneByte, KeyFamily::FfRuns, KeyFamily::Ascii, KeyFamily::Binary, KeyFamily::Prefixed][(idx % 5) as usize];
+    let family = [KeyFamily::OneByte, KeyFamily::FfRuns, KeyFamily::Ascii, KeyFamily::Binary, KeyFamily::Prefixed, KeyFamily::Ragged][(idx % 6) as usize];
     let cfg = Config {
         memtable: *rng.pick(&[256usize, 512, 1024]),
         file: *rng.pick(&[512u64, 1024, 2048]),
